@@ -62,9 +62,10 @@ type setsCase struct {
 	viewSpec string
 	cmd      string
 	set      string
-	line     string // judge line
-	tagged   string // tagged completion text (tag removed)
-	note     string // harness-side finding that is a violation by itself (connection lost, panic, view changed)
+	line     string   // judge line
+	tagged   string   // tagged completion text (tag removed)
+	history  []string // for an aborted view: everything run on that server so far
+	note     string   // harness-side finding that is a violation by itself (connection lost, panic, view changed)
 }
 
 type setsRunner struct {
@@ -77,10 +78,10 @@ type setsRunner struct {
 }
 
 var (
-	reSize    = regexp.MustCompile(`RFC822\.SIZE (\d+)`)
-	reSearch  = regexp.MustCompile(`^\* SEARCH(.*)$`)
-	reCopyUID = regexp.MustCompile(`\[COPYUID (\d+) (\S+) (\S+)\]`)
-	reStatusN = regexp.MustCompile(`MESSAGES (\d+)`)
+	awReSize    = regexp.MustCompile(`RFC822\.SIZE (\d+)`)
+	awReSearch  = regexp.MustCompile(`^\* SEARCH(.*)$`)
+	awReCopyUID = regexp.MustCompile(`\[COPYUID (\d+) (\S+) (\S+)\]`)
+	awReStatusN = regexp.MustCompile(`MESSAGES (\d+)`)
 )
 
 func newSetsRunner() (*setsRunner, error) {
@@ -123,7 +124,7 @@ func (r *setsRunner) message() []byte {
 	return SimpleMessage(fmt.Sprintf("m%d", r.msgN), strings.Repeat("x", r.msgN%4000))
 }
 
-func parseViewSpec(spec string) (n int, drop []int, via string, err error) {
+func awParseViewSpec(spec string) (n int, drop []int, via string, err error) {
 	f := strings.Fields(spec)
 	if len(f) != 3 || !strings.HasPrefix(f[1], "drop=") || !strings.HasPrefix(f[2], "via=") {
 		return 0, nil, "", fmt.Errorf("bad view spec %q", spec)
@@ -153,7 +154,7 @@ func (r *setsRunner) probe(name string, withSize bool) (uids []int, sizes map[in
 	}
 	cnt := -1
 	for _, u := range st.Untagged {
-		if m := reStatusN.FindStringSubmatch(u); m != nil {
+		if m := awReStatusN.FindStringSubmatch(u); m != nil {
 			cnt, _ = strconv.Atoi(m[1])
 		}
 	}
@@ -182,7 +183,7 @@ func (r *setsRunner) probe(name string, withSize bool) (uids []int, sizes map[in
 		if x := reUID.FindStringSubmatch(m[2]); x != nil {
 			uid, _ = strconv.Atoi(x[1])
 		}
-		if x := reSize.FindStringSubmatch(m[2]); x != nil {
+		if x := awReSize.FindStringSubmatch(m[2]); x != nil {
 			sizes[uid], _ = strconv.Atoi(x[1])
 		}
 		if x := reFlags.FindStringSubmatch(m[2]); x != nil {
@@ -208,7 +209,7 @@ func (r *setsRunner) probe(name string, withSize bool) (uids []int, sizes map[in
 }
 
 func (r *setsRunner) buildView(spec string) (*setsView, error) {
-	n, drop, via, err := parseViewSpec(spec)
+	n, drop, via, err := awParseViewSpec(spec)
 	if err != nil {
 		return nil, err
 	}
@@ -250,6 +251,9 @@ func (r *setsRunner) buildView(spec string) (*setsView, error) {
 	default:
 		return nil, fmt.Errorf("bad via %q", via)
 	}
+	if err := awSessionsQuiesce(r.sys); err != nil {
+		return nil, err
+	}
 	if rep := r.a.Cmd("SELECT " + name); rep.Status != "OK" {
 		return nil, fmt.Errorf("SELECT %s: %s %v", name, rep.Tagged, rep.Err)
 	}
@@ -284,7 +288,7 @@ func (r *setsRunner) dropView(v *setsView) {
 	_ = r.b.Cmd("DELETE " + v.name)
 }
 
-func wireStatus(rep Reply) string {
+func awWireStatus(rep Reply) string {
 	switch rep.Status {
 	case "OK":
 		return "ok"
@@ -296,8 +300,8 @@ func wireStatus(rep Reply) string {
 	return "other"
 }
 
-// expandUIDSet expands a COPYUID set (numbers and a:b ranges only).
-func expandUIDSet(s string) []int {
+// awExpandUIDSet expands a COPYUID set (numbers and a:b ranges only).
+func awExpandUIDSet(s string) []int {
 	var out []int
 	for _, it := range strings.Split(s, ",") {
 		ab := strings.Split(it, ":")
@@ -319,7 +323,7 @@ func expandUIDSet(s string) []int {
 	return out
 }
 
-func showPairs(name string, pairs [][2]int) string {
+func awShowPairs(name string, pairs [][2]int) string {
 	if len(pairs) == 0 {
 		return name + "=-"
 	}
@@ -336,7 +340,7 @@ func showPairs(name string, pairs [][2]int) string {
 	return name + "=" + strings.Join(s, ",")
 }
 
-func seqOfUID(uids []int, uid int) int {
+func awSeqOfUID(uids []int, uid int) int {
 	for i, u := range uids {
 		if u == uid {
 			return i + 1
@@ -345,14 +349,14 @@ func seqOfUID(uids []int, uid int) int {
 	return 0
 }
 
-func uidOfSeq(uids []int, seq int) int {
+func awUidOfSeq(uids []int, seq int) int {
 	if seq >= 1 && seq <= len(uids) {
 		return uids[seq-1]
 	}
 	return 0
 }
 
-func showView(uids []int) string {
+func awShowView(uids []int) string {
 	if len(uids) == 0 {
 		return "-"
 	}
@@ -368,7 +372,7 @@ func (r *setsRunner) destContent(v *setsView, dest string) ([][2]int, error) {
 	st := r.b.Cmd("STATUS " + dest + " (MESSAGES)")
 	cnt := 0
 	for _, u := range st.Untagged {
-		if m := reStatusN.FindStringSubmatch(u); m != nil {
+		if m := awReStatusN.FindStringSubmatch(u); m != nil {
 			cnt, _ = strconv.Atoi(m[1])
 		}
 	}
@@ -377,6 +381,9 @@ func (r *setsRunner) destContent(v *setsView, dest string) ([][2]int, error) {
 	}
 	if cnt == 0 {
 		return nil, nil
+	}
+	if err := awSessionsQuiesce(r.sys); err != nil {
+		return nil, err
 	}
 	if rep := r.b.Cmd("EXAMINE " + dest); rep.Status != "OK" {
 		return nil, fmt.Errorf("EXAMINE %s: %s", dest, rep.Tagged)
@@ -393,10 +400,10 @@ func (r *setsRunner) destContent(v *setsView, dest string) ([][2]int, error) {
 	var pairs [][2]int
 	for _, u := range rep.Untagged {
 		if m := reFetchLine.FindStringSubmatch(u); m != nil {
-			if x := reSize.FindStringSubmatch(m[2]); x != nil {
+			if x := awReSize.FindStringSubmatch(m[2]); x != nil {
 				sz, _ := strconv.Atoi(x[1])
 				uid := bySize[sz] // 0 = a message that is not from the source view
-				pairs = append(pairs, [2]int{seqOfUID(v.uids, uid), uid})
+				pairs = append(pairs, [2]int{awSeqOfUID(v.uids, uid), uid})
 			}
 		}
 	}
@@ -425,7 +432,7 @@ func (r *setsRunner) runCase(v *setsView, cmd, set string) (c *setsCase, dirty b
 		for _, u := range rep.Untagged {
 			if m := reFetchLine.FindStringSubmatch(u); m != nil {
 				seq, _ := strconv.Atoi(m[1])
-				uid := uidOfSeq(before, seq)
+				uid := awUidOfSeq(before, seq)
 				if x := reUID.FindStringSubmatch(m[2]); x != nil {
 					uid, _ = strconv.Atoi(x[1])
 				}
@@ -460,24 +467,24 @@ func (r *setsRunner) runCase(v *setsView, cmd, set string) (c *setsCase, dirty b
 	switch cmd {
 	case "FETCH":
 		rep = r.a.Cmd("FETCH " + set + " (UID)")
-		obs = append(obs, showPairs("answered", fetchPairs(rep)))
+		obs = append(obs, awShowPairs("answered", fetchPairs(rep)))
 	case "UIDFETCH":
 		rep = r.a.Cmd("UID FETCH " + set + " (FLAGS)")
-		obs = append(obs, showPairs("answered", fetchPairs(rep)))
+		obs = append(obs, awShowPairs("answered", fetchPairs(rep)))
 	case "STORE", "UIDSTORE":
 		pfx := ""
 		if cmd == "UIDSTORE" {
 			pfx = "UID "
 		}
 		rep = r.a.Cmd(pfx + "STORE " + set + ` +FLAGS (\Flagged)`)
-		obs = append(obs, showPairs("answered", fetchPairs(rep)))
+		obs = append(obs, awShowPairs("answered", fetchPairs(rep)))
 		if rep.Err == nil {
 			after, _, flagged, err := r.probe(v.name, false)
 			if err != nil {
 				return c, true, err
 			}
-			if showView(after) != showView(before) {
-				c.note = fmt.Sprintf("view changed by STORE: %s -> %s", showView(before), showView(after))
+			if awShowView(after) != awShowView(before) {
+				c.note = fmt.Sprintf("view changed by STORE: %s -> %s", awShowView(before), awShowView(after))
 				dirty = true
 			}
 			var pairs [][2]int
@@ -486,7 +493,7 @@ func (r *setsRunner) runCase(v *setsView, cmd, set string) (c *setsCase, dirty b
 					pairs = append(pairs, [2]int{i + 1, u})
 				}
 			}
-			obs = append(obs, showPairs("flagged", pairs))
+			obs = append(obs, awShowPairs("flagged", pairs))
 			if len(pairs) > 0 && !dirty {
 				if cl := r.a.Cmd(`STORE 1:* -FLAGS.SILENT (\Flagged)`); cl.Status != "OK" {
 					dirty = true
@@ -509,13 +516,13 @@ func (r *setsRunner) runCase(v *setsView, cmd, set string) (c *setsCase, dirty b
 			var cu [][2]int
 			texts := append(append([]string{}, rep.Untagged...), rep.Tagged)
 			for _, t := range texts {
-				if m := reCopyUID.FindStringSubmatch(t); m != nil {
-					for _, u := range expandUIDSet(m[2]) {
-						cu = append(cu, [2]int{seqOfUID(before, u), u})
+				if m := awReCopyUID.FindStringSubmatch(t); m != nil {
+					for _, u := range awExpandUIDSet(m[2]) {
+						cu = append(cu, [2]int{awSeqOfUID(before, u), u})
 					}
 				}
 			}
-			obs = append(obs, showPairs("copyuid", cu))
+			obs = append(obs, awShowPairs("copyuid", cu))
 			dp, err := r.destContent(v, dest)
 			if err != nil {
 				return c, true, err
@@ -523,16 +530,16 @@ func (r *setsRunner) runCase(v *setsView, cmd, set string) (c *setsCase, dirty b
 			if len(dp) != len(cu) {
 				r.stats["copy.dest-count-differs-from-copyuid"]++
 			}
-			obs = append(obs, showPairs("dest", dp))
+			obs = append(obs, awShowPairs("dest", dp))
 			after, _, _, err := r.probe(v.name, false)
 			if err != nil {
 				return c, true, err
 			}
 			gone := goneObs(after)
 			if verb == "MOVE" {
-				obs = append(obs, showPairs("gone", gone))
+				obs = append(obs, awShowPairs("gone", gone))
 			} else if len(gone) > 0 {
-				c.note = fmt.Sprintf("view changed by COPY: %s -> %s", showView(before), showView(after))
+				c.note = fmt.Sprintf("view changed by COPY: %s -> %s", awShowView(before), awShowView(after))
 			}
 			if len(gone) > 0 {
 				dirty = true
@@ -552,18 +559,18 @@ func (r *setsRunner) runCase(v *setsView, cmd, set string) (c *setsCase, dirty b
 		rep = r.a.Cmd(line)
 		var pairs [][2]int
 		for _, u := range rep.Untagged {
-			if m := reSearch.FindStringSubmatch(u); m != nil {
+			if m := awReSearch.FindStringSubmatch(u); m != nil {
 				for _, f := range strings.Fields(m[1]) {
 					x, _ := strconv.Atoi(f)
 					if strings.HasPrefix(cmd, "UIDSEARCH") {
-						pairs = append(pairs, [2]int{seqOfUID(before, x), x})
+						pairs = append(pairs, [2]int{awSeqOfUID(before, x), x})
 					} else {
-						pairs = append(pairs, [2]int{x, uidOfSeq(before, x)})
+						pairs = append(pairs, [2]int{x, awUidOfSeq(before, x)})
 					}
 				}
 			}
 		}
-		obs = append(obs, showPairs("result", pairs))
+		obs = append(obs, awShowPairs("result", pairs))
 	case "UIDEXPUNGE":
 		if len(before) > 0 {
 			if pre := r.a.Cmd(`STORE 1:* +FLAGS.SILENT (\Deleted)`); pre.Status != "OK" {
@@ -577,7 +584,7 @@ func (r *setsRunner) runCase(v *setsView, cmd, set string) (c *setsCase, dirty b
 				return c, true, err
 			}
 			gone := goneObs(after)
-			obs = append(obs, showPairs("gone", gone))
+			obs = append(obs, awShowPairs("gone", gone))
 			if len(gone) > 0 {
 				dirty = true
 			} else if len(before) > 0 {
@@ -594,16 +601,16 @@ func (r *setsRunner) runCase(v *setsView, cmd, set string) (c *setsCase, dirty b
 	for _, p := range r.sys.Panics.Take() {
 		c.note = "server goroutine panicked: " + p
 	}
-	c.tagged = canonTagged(rep)
+	c.tagged = awCanonTagged(rep)
 	r.stats["cmd."+cmd]++
-	r.stats["status."+wireStatus(rep)]++
-	c.line = fmt.Sprintf("judge-c16-sets %s %s %s %s => %s %s", cmd, mode, showView(before), set, wireStatus(rep), strings.Join(obs, " "))
+	r.stats["status."+awWireStatus(rep)]++
+	c.line = fmt.Sprintf("judge-c16-sets %s %s %s %s => %s %s", cmd, mode, awShowView(before), set, awWireStatus(rep), strings.Join(obs, " "))
 	return c, dirty, fatal
 }
 
 // ---- generation --------------------------------------------------------------------------
 
-func pow2(k uint) *big.Int { return new(big.Int).Lsh(big.NewInt(1), k) }
+func awPow2(k uint) *big.Int { return new(big.Int).Lsh(big.NewInt(1), k) }
 
 func (r *setsRunner) genNumber(g *Rng, uidMode bool, uids []int, wantValid bool) string {
 	n := len(uids)
@@ -644,10 +651,10 @@ func (r *setsRunner) genNumber(g *Rng, uidMode bool, uids []int, wantValid bool)
 	p30 := new(big.Int).Exp(big.NewInt(10), big.NewInt(30), nil)
 	choices := []string{
 		strconv.Itoa(base + 1), strconv.Itoa(base + 2), strconv.Itoa(base + g.Range(1, 50)),
-		add(pow2(31), -1), add(pow2(31), 0), add(pow2(31), 1),
-		add(pow2(32), -1), add(pow2(32), 0), add(pow2(32), 1), add(pow2(32), k), add(pow2(32), int64(max(base, 1))),
-		add(pow2(63), -1), add(pow2(63), 0), add(pow2(63), 1),
-		add(pow2(64), -1), add(pow2(64), 0), add(pow2(64), 1), add(pow2(64), k),
+		add(awPow2(31), -1), add(awPow2(31), 0), add(awPow2(31), 1),
+		add(awPow2(32), -1), add(awPow2(32), 0), add(awPow2(32), 1), add(awPow2(32), k), add(awPow2(32), int64(max(base, 1))),
+		add(awPow2(63), -1), add(awPow2(63), 0), add(awPow2(63), 1),
+		add(awPow2(64), -1), add(awPow2(64), 0), add(awPow2(64), 1), add(awPow2(64), k),
 		p30.String(),
 	}
 	i := g.Intn(len(choices))
@@ -750,7 +757,7 @@ func (r *setsRunner) genViewSpec(g *Rng, n int, gaps bool, via string) string {
 
 // ---- driver ------------------------------------------------------------------------------
 
-var reCause = regexp.MustCompile(`cause=(\S+)`)
+var awReCause = regexp.MustCompile(`cause=(\S+)`)
 
 func runSetsOracle(args []string) int {
 	fs := flag.NewFlagSet("c16sets", flag.ExitOnError)
@@ -799,7 +806,7 @@ func runSetsOracle(args []string) int {
 					continue
 				}
 				cause := "unknown"
-				if m := reCause.FindStringSubmatch(verdict); m != nil {
+				if m := awReCause.FindStringSubmatch(verdict); m != nil {
 					cause = m[1]
 				}
 				r.stats["violation.cause="+cause]++
@@ -808,6 +815,9 @@ func runSetsOracle(args []string) int {
 					continue
 				}
 				text := fmt.Sprintf("oracle c16sets\nview %s\ncase %s %s\n# property C16: %s\n# observed: %s\n# tagged completion: %s\n# replay: ./check C16 --replay <this file>\n", c.viewSpec, c.cmd, c.set, verdict, c.line, c.tagged)
+				if c.history != nil {
+					text = fmt.Sprintf("oracle c16sets\n%s\n# property C16: %s\n# replay: ./check C16 --replay <this file>\n", strings.Join(c.history, "\n"), verdict)
+				}
 				name := fmt.Sprintf("C16-sets-%d-%d.txt", *seed, len(res.Violations))
 				path := filepath.Join(*replayDir, name)
 				_ = os.MkdirAll(*replayDir, 0o755)
@@ -847,7 +857,9 @@ func runSetsOracle(args []string) int {
 	}()
 
 	type planned struct{ cmd, set string }
+	var history []string // every view and case run on the current server, for the replay file of an aborted view
 	runView := func(spec string, next func(v *setsView, k int) (planned, bool)) error {
+		history = append(history, "view "+spec)
 		v, err := r.buildView(spec)
 		if err != nil {
 			return err
@@ -857,12 +869,13 @@ func runSetsOracle(args []string) int {
 			if !ok {
 				break
 			}
+			history = append(history, "case "+p.cmd+" "+p.set)
 			c, dirty, fatal := r.runCase(v, p.cmd, p.set)
 			if c.line != "" || c.note != "" {
 				r.cases = append(r.cases, c)
 			}
 			if fatal != nil {
-				return fatal
+				return fmt.Errorf("case %s %s on view [%s]: %w", p.cmd, p.set, awShowView(v.uids), fatal)
 			}
 			if dirty {
 				r.dropView(v)
@@ -963,7 +976,8 @@ func runSetsOracle(args []string) int {
 			if err != nil {
 				fmt.Fprintln(os.Stderr, "view", spec, "aborted:", err)
 				r.stats["views.aborted"]++
-				r.cases = append(r.cases, &setsCase{viewSpec: spec, cmd: "-", set: "-", line: "judge-c16-sets - s - 1 => other", note: "history aborted: " + err.Error()})
+				r.cases = append(r.cases, &setsCase{viewSpec: spec, cmd: "-", set: "-", line: "judge-c16-sets - s - 1 => other", note: "history aborted: " + err.Error(), history: append([]string{}, history...)})
+				history = nil
 				// the server may be unusable: start a new one
 				r.close()
 				stats, cases := r.stats, r.cases
